@@ -29,14 +29,15 @@ fn check_division<F: Float>(sl: &Rc<SweepEvent<F>>, sr: &Rc<SweepEvent<F>>, pl: 
     );
     assert!(got == p, "[KF4] the segment is split exactly at the requested point (both segments of an intersection get the same point)");
     assert!(got != pl && got != pr, "both pieces have non-zero length");
+    // sweep order of events at different points is lexicographic (x, then y): compared on the
+    // coordinates directly (the event order itself is the subject of the C15 harnesses)
+    let lex_lt = |a: Coord<F>, b: Coord<F>| a.x < b.x || (a.x == b.x && a.y < b.y);
     // left piece: se_l stays the left event, its new partner is a right event that comes later
     assert!(sl.is_left() && !r_new.is_left(), "left piece: (se_l, r) is a left/right pair");
-    assert!(sl.is_before(&r_new), "left piece: left event first in sweep order; the new event lies in the future of the sweep");
+    assert!(lex_lt(pl, got), "left piece: left event first in sweep order; the new events lie in the future of the sweep");
     // right piece: exactly one left event, and it is the earlier one (corner case 2 swaps the roles)
     assert!(l_new.is_left() != sr.is_left(), "right piece: exactly one of (l, se_r) is the left event");
-    let (a, b) = if l_new.is_left() { (&l_new, sr) } else { (sr, &l_new) };
-    assert!(a.is_before(b), "right piece: left event first in sweep order");
-    assert!(sl.is_before(&l_new), "the new left event lies in the future of the sweep");
+    assert!(l_new.is_left() == lex_lt(got, pr), "right piece: left event first in sweep order");
     assert!(
         r_new.is_subject == subject && l_new.is_subject == subject && r_new.contour_id == cid && l_new.contour_id == cid,
         "operand tag and contour id are inherited"
@@ -98,6 +99,9 @@ fn divide_ulp_body<F: Float>() {
     let (ylo, yhi) = if y0 < y1 { (y0, y1) } else { (y1, y0) };
     kani::assume(ip >= i0 && ip <= i1 && yp >= ylo && yp <= yhi);
     kani::assume(p != pl && p != pr);
+    // L-INT: a requested point is (up to rounding in x) a point of the segment, and endpoint hits are
+    // returned exactly: so it lies strictly between the endpoints in y (in x for a horizontal segment)
+    kani::assume(if y0 != y1 { yp > ylo && yp < yhi } else { ip > i0 && ip < i1 });
     let subject: bool = kani::any();
     let sg = seg_c(pl, pr, subject, 1);
     let mut q = BinaryHeap::new();
